@@ -20,6 +20,9 @@ trees (sometimes of the same size as a compact block), with the sparse trees fir
 stepped with Euler, implicitfast, implicit and RK4, either by step() (fused factor_solve_i) or by step1()+step2() (factor_m,
 then solve_m on the stored factor), and in a quarter of the cases with a joint equality and the CG solver (solve_m on every
 gradient update).
+In 3 of 5 cases of both families the Model copy gets per-world (batched) dof_armature, body_mass and body_inertia (leading
+size nworld or 2, each field on its own), so every world has its own M, also on the configuration-independent compact blocks,
+and its own factor; every world's solution is judged against its own M (whole system and per block) on all the paths above.
 """
 
 import mujoco
@@ -35,7 +38,8 @@ RULE = (
   "armature, damping and a velocity actuator; 3 worlds with different random qpos/qvel; 2 random right-hand sides per "
   "solve. Family 'mix' (case=(seed, order, nbig, integrator)): 1-2 sparse trees (65..130 dofs, branched, armature) + 1-3 "
   "compact diagonal blocks (1..6 dofs) + 0-3 tiled trees + 0-3 scalar trees in one model, sparse trees first/last/middle, "
-  "integrators Euler/implicitfast/implicit/RK4. Non-trivial: nv>=2 and all direct oracles evaluated; distinct by hash(xml, states)."
+  "integrators Euler/implicitfast/implicit/RK4. 3 of 5 cases of both families: per-world (batched) dof_armature, body_mass, "
+  "body_inertia on the Model (leading size nworld or 2), world w judged against its own M. Non-trivial: nv>=2 and all direct oracles evaluated; distinct by hash(xml, states)."
 )
 ASSUMPTIONS = [
   "float64 numpy linear algebra on the float32 matrices MJWarp itself stores (d.M CSR, the matrices passed to the "
@@ -311,13 +315,13 @@ def cases(tier, seed):
   out = []
   for i in range(n):
     force = sizes[i % len(sizes)]
-    out.append({"id": f"f{seed}_{i}", "seed": seed * 100000 + i, "force": int(force), "integrator": ("Euler", "implicitfast", "implicit")[i % 3], "split": i % 4 == 3, "tier": tier, "weight": 1 + force // 30})
+    out.append({"id": f"f{seed}_{i}", "seed": seed * 100000 + i, "force": int(force), "integrator": ("Euler", "implicitfast", "implicit")[i % 3], "split": i % 4 == 3, "batch": i % 5 < 3, "tier": tier, "weight": 1 + force // 30})
   nmix = 36 if tier == "quick" else 300
   mix = []
   for i in range(nmix):
     # (order, integrator) walks all 12 combinations
     nbig = 2 if i % 12 in (2, 3, 10) else 1  # two sparse trees: once per order in every 12 cases
-    mix.append({"id": f"x{seed}_{i}", "seed": seed * 100000 + 50000 + i, "family": "mix", "order": i % 3, "nbig": nbig, "integrator": MIX_INTEGRATORS[(i // 3) % 4], "split": (i + i // 12) % 2 == 1, "cg": i % 4 == 1, "tier": tier, "weight": 3 + 2 * nbig})
+    mix.append({"id": f"x{seed}_{i}", "seed": seed * 100000 + 50000 + i, "family": "mix", "order": i % 3, "nbig": nbig, "integrator": MIX_INTEGRATORS[(i // 3) % 4], "split": (i + i // 12) % 2 == 1, "cg": i % 4 == 1, "batch": i % 5 < 3, "tier": tier, "weight": 3 + 2 * nbig})
   # interleave so that a budget cut-off drops both families evenly
   res = []
   step = max(1, len(out) // max(1, len(mix)))
@@ -413,6 +417,36 @@ def judge_solve(rec, name, A, x, b, ctx, data=None, blocks=None):
   return ok
 
 
+def batch_inertia_fields(m, mjm, seed, nworld):
+  """Per-world (batched) inertia parameters on the Model copy: dof_armature, body_mass, body_inertia (and the derived
+  body_subtreemass) get a leading dimension > 1, so that every world has its own M, also on the configuration-independent
+  compact diagonal blocks, and therefore its own factorisation. All values stay positive (M stays SPD). Own random stream:
+  the draws of the un-batched case families do not move. Returns {field: leading size}."""
+  import warp as wp
+
+  rb = np.random.default_rng([int(seed), 2121])
+  lead = {f: (nworld if rb.random() < 0.75 else 2) for f in ("dof_armature", "body_mass", "body_inertia")}
+  arm = np.stack([np.asarray(mjm.dof_armature, dtype=np.float64)] * lead["dof_armature"])
+  arm = arm * rb.uniform(0.3, 3.0, size=arm.shape) + rb.uniform(0.0, 0.3, size=arm.shape) * (rb.random(size=arm.shape) < 0.6)
+  mass = np.stack([np.asarray(mjm.body_mass, dtype=np.float64)] * lead["body_mass"])
+  mass = mass * rb.uniform(0.3, 3.0, size=mass.shape)
+  inert = np.stack([np.asarray(mjm.body_inertia, dtype=np.float64)] * lead["body_inertia"])
+  inert = inert * rb.uniform(0.3, 3.0, size=inert.shape[:2])[:, :, None]  # one factor per body: triangle inequality kept
+  if nworld > 1:  # world 1 never repeats world 0 (every leading size is >= 2)
+    arm[1] += 0.05 + 0.5 * arm[0]
+    mass[1] *= 1.7
+    inert[1] *= 1.7
+  sub = np.stack([mass[w % mass.shape[0]] for w in range(nworld)])
+  for w in range(nworld):
+    for b in range(mjm.nbody - 1, 0, -1):
+      sub[w, mjm.body_parentid[b]] += sub[w, b]
+  m.dof_armature = wp.array(arm.astype(np.float32), dtype=float)
+  m.body_mass = wp.array(mass.astype(np.float32), dtype=float)
+  m.body_inertia = wp.array(inert.astype(np.float32), dtype=wp.vec3)
+  m.body_subtreemass = wp.array(sub.astype(np.float32), dtype=float)
+  return lead
+
+
 class Hooks:
   """Wraps the factor/solve entry points of mujoco_warp._src.smooth so that calls made by the real pipeline are observed."""
 
@@ -483,6 +517,7 @@ def run_case(case):
     return rec.result()
   nv = mjm.nv
   nworld = 3
+  lead = batch_inertia_fields(m, mjm, case["seed"], nworld) if case.get("batch") else None
   states = []
   for w in range(nworld):
     qpos = np.array(mjm.qpos0, dtype=np.float64)
@@ -567,6 +602,16 @@ def run_case(case):
       rec.viol("mul_m", f"mul_m differs from dense product by {np.abs(res[w] - ref).max():.3g} (scale {den:.3g}) world {w} trees {lay}")
     elif ratio > 1:
       rec.inconcl("mul_m: grey zone")
+  if lead:
+    # batched family: did the per-world parameters reach M? (each world above was judged against its OWN M = Mcsr[w], per block)
+    rec.cover("batched_model_cases", 1)
+    rec.cover("batched_model:leading_sizes", [f"{k}={v}" for k, v in sorted(lead.items())])
+    M0, M1 = mw.dense_M(mjm, Mcsr[0]), mw.dense_M(mjm, Mcsr[1])
+    for a, num, cls in blocks:
+      s = slice(a, a + num)
+      d0, d1 = np.diag(M0[s, s]), np.diag(M1[s, s])
+      if np.all(np.isfinite(d0)) and np.all(np.isfinite(d1)) and np.any(np.abs(d0 - d1) > 0.05 * np.abs(d0)):
+        rec.cover(f"batched_model:{cls}_block_differs_between_worlds", 1)
 
   # ---- pipeline calls: one real step with interception (constraint-free: solver is a copy)
   with Hooks() as hk:
@@ -608,6 +653,8 @@ def run_case(case):
           rec.cover("pipeline_system_matrix_differs_from_M:" + kind, 1)
   for tag in seen:
     rec.cover("pipeline_calls:" + tag, 1)
+    if lead:
+      rec.cover("batched_model:pipeline_calls:" + tag, 1)
   for cls, num in lay:
     rec.cover("layout:" + cls, 1)
     rec.cover("tree_dofs", [str(num)])
@@ -647,8 +694,8 @@ def run_case(case):
     rec.cover(f"mix_family:order{case['order']}:{case['integrator']}", 1)
   rec.cover("integrator:" + case["integrator"], 1)
   if nv >= 2:
-    rec.nontrivial(xml, *[s["qpos"] for s in states])
-  rec.sample = {"trees": [list(x) for x in lay], "specs": [list(s) for s in specs], "nv": nv, "nC": int(mjm.nC), "integrator": case["integrator"], "pipeline_calls": sorted(seen), "qLD_block_total": int(m.qLD_block_total)}
+    rec.nontrivial(xml, *[s["qpos"] for s in states], "batched" if lead else "")
+  rec.sample = {"batched_model_fields": lead, "trees": [list(x) for x in lay], "specs": [list(s) for s in specs], "nv": nv, "nC": int(mjm.nC), "integrator": case["integrator"], "pipeline_calls": sorted(seen), "qLD_block_total": int(m.qLD_block_total)}
   return rec.result()
 
 
@@ -697,6 +744,14 @@ def requirements(agg, tier):
   for k in ("pipeline_calls:solve_m[M]:from_step2", "pipeline_calls:solve_m[M]:from_CG_solver"):
     if cov.get(k, 0) < 3:
       unmet.append(f"pipeline call intercepted in fewer than 3 cases: {k}")
+  # batched-model family: per-world dof_armature / body_mass / body_inertia must have made the worlds' M differ on every
+  # layout (compact blocks included), and both the stored-factor path (solve_m) and the fused path must have run on such models
+  for cls in ("compact", "scalar", "tile", "tile_branched", "sparse"):
+    if cov.get(f"batched_model:{cls}_block_differs_between_worlds", 0) < 3:
+      unmet.append(f"batched-model family: fewer than 3 {cls} blocks whose inertia differs between worlds")
+  for tag in ("solve_m[M]", "factor_solve_i[M]", "factor_solve_i[system]", "factor_solve_lu[system]"):
+    if cov.get("batched_model:pipeline_calls:" + tag, 0) < 2:
+      unmet.append(f"batched-model family: pipeline call intercepted in fewer than 2 cases: {tag}")
   # a residual between 1x and 30x the bound is not decided; the clean tree sits ~20x below 1, so more than a stray
   # grey-zone case means something this monitor cannot call either way
   if agg["inconclusive"] > max(1, 0.02 * agg["evaluations"]):
